@@ -1609,9 +1609,11 @@ class C15A(Prop):
         "read_until = up to the first terminator or time-out); the concrete transports are property C13",
         "SCPI: str.encode('ascii') / bytes.decode('ascii') / bytes.isdigit / int(bytes) (model: encodeAscii, decodeAscii, "
         "allDigits, parseDec; differentially checked here)",
-        "USBTMC: struct.pack/unpack_from layouts 'BBBx', '<LBxxx', '<LBBxx' (model: bulkOutHeader, le32, unpackResp; "
-        "differentially checked), usb endpoints (fakes), the abort sequences (answered 'not in progress' by the fake)",
-        "USBTMC: rigol_quirk_ieee_block sub-quirk, open()/close()/clear()/read_stb()/trigger() are not modelled",
+        "USBTMC: struct.pack/unpack_from layouts 'BBBx', '<LBxxx', '<LBBxx' (model: bulkOutHeader, le32, unpackResp) and CPython's "
+        "int(bytes) as used by the RIGOL IEEE-block sub-quirk (model: pyIntBytes) — differentially checked; the usb endpoints "
+        "and the usb device are fakes (Bulk-IN outcomes and control status bytes are scripted)",
+        "USBTMC: open()/close()/get_capabilities()/vendor initialisation are not modelled; the Advantest lock()/unlock() "
+        "control requests around ask_raw are checked by the oracle only (paired, also on failure)",
     ]
 
     # -- one batch: run cases on the implementation, oracle, then the model on the same lines ------------
